@@ -2006,11 +2006,17 @@ class AstEval:
             return await func.call(self, *args, **kwargs)
         if inspect.isclass(func) and hasattr(func, "__init__evalfunc_wrap__"):
             has_init_wrapper = getattr(func, "__init__evalfunc_wrap__") is not None
-            inst = func(*args, **kwargs) if not has_init_wrapper else func()
-            if has_init_wrapper:
-                #
-                # since our __init__ function is async, call the renamed one
-                #
+            if not has_init_wrapper:
+                return func(*args, **kwargs)
+            #
+            # since our __init__ function is async, create the instance without
+            # calling any inherited __init__, and call the renamed one
+            #
+            if func.__new__ is object.__new__:
+                inst = func.__new__(func)
+            else:
+                inst = func.__new__(func, *args, **kwargs)
+            if isinstance(inst, func):
                 await inst.__init__evalfunc_wrap__.call(self, *args, **kwargs)
             return inst
         if asyncio.iscoroutinefunction(func):
